@@ -166,6 +166,10 @@ def run(ctx, res):
     res.corr.append(("NonnegMean.test/estim/bet vs NNM.run_test", cr, nnm.case_json))
     res.evaluations += len(cases)
     for c in cases:
+        for what in nnm.purity_violation(c):
+            res.oracle_violations.append({"what": f"{c['cfg']['kind']}: {what}", "input": nnm.case_json(c),
+                                          "signature": f"C01:{c['cfg']['kind']}:{what}"})
+    for c in cases:
         if len(set(c["xs"])) > 1:
             res.nontrivial.add(repr((c["cfg"], c["xs"])))
     # --- without replacement: all N! orderings
